@@ -40,7 +40,12 @@ fn gen_int(rng: &mut Rng) -> (i64, Vec<u8>) {
     if rng.chance(1, 12) {
         // leading zeros
         let neg = t[0] == b'-' || t[0] == b'+';
-        t.insert(if neg { 1 } else { 0 }, b'0');
+        // one as a rule; now and then a fixed-width field padded far beyond the digits any integer type has (the value is
+        // the same: 488.2 puts no limit on the length of the mantissa of an <NRf>)
+        let k = if rng.chance(1, 5) { *rng.pick(&[8usize, 17, 20, 30, 31, 32, 33, 40, 64, 127, 128, 255, 256, 300, 1000]) } else { 1 };
+        for _ in 0..k {
+            t.insert(if neg { 1 } else { 0 }, b'0');
+        }
     }
     (v, t)
 }
